@@ -197,6 +197,28 @@ def run_more(chk, repo):
                               f'dependent variable', line=c.lineno,
                               witness='a model with two DVs where the first already has the error model: '
                                       'set_..._error_model(model, dv=2) returns the model unchanged')
+    from sa import lints
+    st = lints.self_test()
+    if not all(st.values()):
+        raise AnalysisError(f'lint self-test failed: {st}')
+    X4 = chk.rule('X4', 'a statement position is not used after the statements were re-bound (inserted/removed) without being '
+                        'looked up again', floor=5)
+    for f in repo.all_funcs():
+        if not f.module.name.startswith('pharmpy.modeling'):
+            continue
+        conts = {c.func.value.id for c in ast.walk(f.node) if isinstance(c, ast.Call) and isinstance(c.func, ast.Attribute)
+                 and c.func.attr in lints.INDEX_METHODS and isinstance(c.func.value, ast.Name)}
+        rebound = {t.id for n in ast.walk(f.node) if isinstance(n, ast.Assign) for t in n.targets if isinstance(t, ast.Name)}
+        if not (conts & rebound):
+            continue
+        res = lints.stale_indices(f.node)
+        chk.instance(X4, f'{f.qualname}: positions in {sorted(conts & rebound)} (re-bound in the function); stale uses: {len(res)}')
+        for cont, iv, d, r, u in res:
+            chk.violation(X4, f.module.rel, f.qualname, f'{d.text()[:50]} ... {r.text()[:50]} ... {u.text()[:50]}',
+                          f'`{iv}` is a position in `{cont}` computed before `{cont}` was re-bound at line {r.line}; it is used '
+                          f'on the new `{cont}` at line {u.line}', line=u.line,
+                          witness="add_iiv(model, ['BIO', 'MAT'], ['re_log', 'exp']): the re_log template inserts a statement, "
+                                  "the second parameter's position is off by one and the eta lands on the preceding statement")
     for f in em.functions.values():
         origin: dict[str, set] = {}
 
